@@ -777,8 +777,12 @@ class List(list, base.Symbolic, pg_typing.CustomTyping):
     """Sorts the items of the list in place.."""
     if base.treats_as_sealed(self):
       raise base.WritePermissionError('Cannot sort a sealed List.')
-    super().sort(key=key, reverse=reverse)
-    self._sync_children_paths()
+    try:
+      super().sort(key=key, reverse=reverse)
+    finally:
+      # NOTE: a failed sort (e.g. items that are not comparable) may still have
+      # moved items around.
+      self._sync_children_paths()
 
   def reverse(self) -> None:
     """Reverse the elements of the list in place."""
